@@ -50,7 +50,11 @@ func (s snap) diff(b dyn.Buf) string {
 	return ""
 }
 
-func c15Run(cs c15Case) (fs []F) {
+func c15Run(cs c15Case) []F {
+	return core.Guard("mismatch", func() []F { return c15RunRaw(cs) })
+}
+
+func c15RunRaw(cs c15Case) (fs []F) {
 	s, d := typeByName(cs.S), typeByName(cs.D)
 	var key string
 	fail := func(kind, format string, a ...any) {
